@@ -46,6 +46,11 @@ var (
 	// on the calling goroutine (the harness owns the schedule there: it can let other requests run and come back)
 	pauseKind, pauseSuffix string
 	pauseFn                func()
+	// pause point by position (optional): before the n-th call (reads included) under the watched root, counted from
+	// the moment of installation, fn runs on the calling goroutine
+	pauseIn   int
+	pauseInFn func()
+	steps     int // all calls under the watched root since Reset
 )
 
 // PauseAt installs a one-shot pause point (kind as in Op.Kind; reads such as "stat" count too).
@@ -53,6 +58,20 @@ func PauseAt(kind, suffix string, fn func()) {
 	mu.Lock()
 	pauseKind, pauseSuffix, pauseFn = kind, suffix, fn
 	mu.Unlock()
+}
+
+// PauseAtStep installs a one-shot pause point before the n-th (1-based) call under the watched root from now on.
+func PauseAtStep(n int, fn func()) {
+	mu.Lock()
+	pauseIn, pauseInFn = n, fn
+	mu.Unlock()
+}
+
+// Steps returns the number of calls (reads included) under the watched root since Reset.
+func Steps() int {
+	mu.Lock()
+	defer mu.Unlock()
+	return steps
 }
 
 // Reset clears the log and every armed crash; dead roots stay dead (their goroutines may still be around).
@@ -63,6 +82,7 @@ func Reset(watchRoot string, logging bool) {
 	logOn = logging
 	watch = filepath.Clean(watchRoot)
 	count, armAt, armMode = 0, 0, 0
+	steps, pauseIn, pauseInFn = 0, 0, nil
 	matchKind, matchSuffix = "", ""
 	select {
 	case <-crashed:
@@ -152,6 +172,19 @@ func step(kind, path, to string, mut bool) int {
 		mu.Unlock()
 		fn()
 		mu.Lock()
+	}
+	if under(p, watch) {
+		steps++
+		if pauseInFn != nil {
+			pauseIn--
+			if pauseIn <= 0 {
+				fn := pauseInFn
+				pauseInFn = nil
+				mu.Unlock()
+				fn()
+				mu.Lock()
+			}
+		}
 	}
 	op := Op{Kind: kind, Path: p, To: to, Mut: mut}
 	hit := false
